@@ -32,6 +32,10 @@ term, or raises).  Two small interpreters over the `ast` do the work:
         fresh one: `continue` = whitespace, `return Token(TokenType.OPER, char)` = operator character,
         `return Token(TokenType.COMPONENT_METRIC, ...)` = metric marker, `raise ValueError` = anything else.
 
+`hoBuilderKeepsOnlyTokens` (see `ho_builder_keeps_only_tokens`): the higher-order builder classes write no instance
+attribute besides the token deque outside `__init__` and `build` mutates nothing it does not own — what
+`C05_history_free` rests on.
+
 Also checked: `_operator_precedence` is a dict literal {str: int} over exactly the ten operator strings; each step class's
 `__repr__` returns the literal the table is indexed with (`repr(prev_step)`).
 
@@ -1410,6 +1414,91 @@ def tokenizer_chars(tok: Module) -> tuple[list[str], list[str], str]:
     return sorted(ws, key=ord), sorted(ops, key="+-*/()".index), metric[0]
 
 
+# ---------------------------------------------------------------- builder objects keep no state besides their tokens
+_MUTATORS = {"append", "appendleft", "add", "update", "setdefault", "insert", "extend", "extendleft", "pop", "popleft",
+             "popitem", "clear", "remove", "discard", "__setitem__", "__delitem__", "sort", "reverse", "rotate"}
+_OK_DECORATORS = {"abstractmethod", "staticmethod", "classmethod", "property", "overload", "override"}
+
+
+def ho_builder_keeps_only_tokens(engine: Module) -> tuple[bool, str]:
+    """Is `build` a function of the builder's own token deque?  Established from the source of `_BaseHOFormulaBuilder`
+    and every class deriving from it:
+      * the token deque = the attribute `build` iterates over; it is the only instance attribute written outside
+        `__init__`; every other instance attribute is written in `__init__` only, from a plain parameter (configuration
+        such as the create method — not something a later call could fill in);
+      * no `setattr` / `__dict__` / `vars` / `global` / `nonlocal` / subscript stores / `del` / class-level variables /
+        caching decorators in these classes;
+      * `build` mutates no container reachable from `self` or the module (mutating methods only on its own locals);
+        the other methods mutate only the token deque.
+    Then `copy.copy(self)` in `_copy` duplicates token state + configuration only, and nothing a `build` did can be seen
+    by a later `build` of the same or of a derived builder.  Returns (flag, reason when False)."""
+    base = "_BaseHOFormulaBuilder"
+    if base not in engine.classes:
+        raise Unsupported(f"class {base} not found")
+    classes = [c for c in engine.classes.values() if base in [k.name for k in engine.mro(c.name)]]
+    builds = [(c, n) for c in classes for n in c.body if isinstance(n, _FUNC) and n.name == "build"]
+    if not builds:
+        raise Unsupported("no build() method in the higher-order builder classes")
+    tokens = set()
+    for _c, fn in builds:
+        for n in ast.walk(fn):
+            if isinstance(n, ast.For) and isinstance(n.iter, ast.Attribute) and isinstance(n.iter.value, ast.Name) \
+                    and n.iter.value.id == fn.args.args[0].arg:
+                tokens.add(n.iter.attr)
+    if len(tokens) != 1:
+        raise Unsupported(f"build(): no unique token deque (`for ... in self.<attr>`): {sorted(tokens)}")
+    tok = tokens.pop()
+    for c in classes:
+        for item in c.body:
+            if isinstance(item, ast.Assign) or (isinstance(item, ast.AnnAssign) and item.value is not None):
+                return False, f"{c.name}: class-level variable {ast.unparse(item)[:40]!r}"
+            if not isinstance(item, _FUNC):
+                continue
+            for d in item.decorator_list:
+                name = ast.unparse(d).split("(")[0].split(".")[-1]
+                if name not in _OK_DECORATORS:
+                    return False, f"{c.name}.{item.name}: decorator {ast.unparse(d)!r}"
+            params = {a.arg for a in item.args.posonlyargs + item.args.args + item.args.kwonlyargs}
+            self_name = item.args.args[0].arg if item.args.args else None
+            local_names = {n.id for n in ast.walk(item) if isinstance(n, ast.Name) and isinstance(n.ctx, ast.Store)} - {self_name}
+            for n in ast.walk(item):
+                where = f"{c.name}.{item.name}"
+                if isinstance(n, (ast.Global, ast.Nonlocal, ast.Delete)):
+                    return False, f"{where}: {ast.unparse(n)!r}"
+                if isinstance(n, ast.Name) and n.id in ("setattr", "vars", "delattr"):
+                    return False, f"{where}: uses {n.id}"
+                if isinstance(n, ast.Attribute) and n.attr in ("__dict__", "__setattr__", "__slots__"):
+                    return False, f"{where}: uses {n.attr}"
+                if isinstance(n, ast.Subscript) and isinstance(n.ctx, ast.Store):
+                    return False, f"{where}: subscript store {ast.unparse(n)!r}"
+                if isinstance(n, ast.Attribute) and isinstance(n.ctx, ast.Store) and n.attr != tok:
+                    if item.name != "__init__":
+                        return False, f"{where}: writes attribute {n.attr}"
+                if isinstance(n, (ast.Assign, ast.AnnAssign)) and item.name == "__init__":
+                    tgts = n.targets if isinstance(n, ast.Assign) else [n.target]
+                    for t in tgts:
+                        if isinstance(t, ast.Attribute) and t.attr != tok and not (
+                                isinstance(n.value, ast.Name) and n.value.id in params and n.value.id != self_name):
+                            return False, f"{where}: attribute {t.attr} is not initialised from a parameter"
+                if isinstance(n, ast.Attribute) and isinstance(n.ctx, ast.Store) and n.attr == tok and item.name == "build":
+                    return False, f"{where}: writes the token deque"
+                if isinstance(n, ast.Call) and isinstance(n.func, ast.Attribute) and n.func.attr in _MUTATORS:
+                    root = n.func.value
+                    chain = []
+                    while isinstance(root, (ast.Attribute, ast.Subscript, ast.Call)):
+                        if isinstance(root, ast.Attribute):
+                            chain.append(root.attr)
+                        root = root.func if isinstance(root, ast.Call) else root.value
+                    if not isinstance(root, ast.Name):
+                        return False, f"{where}: mutation {ast.unparse(n)[:50]!r}"
+                    if item.name == "build":
+                        if root.id == self_name or root.id not in local_names:
+                            return False, f"{where}: mutates {ast.unparse(n.func.value)!r}"
+                    elif chain[-1:] != [tok] and not (not chain and root.id in local_names):
+                        return False, f"{where}: mutates {ast.unparse(n.func.value)!r}"
+    return True, ""
+
+
 def _lean_char(c: str) -> str:
     return f"(Char.ofNat {ord(c)})"
 
@@ -1441,4 +1530,8 @@ def generate(repo: pathlib.Path) -> str:
         out.append(translate_step(steps, c, 1))
     out.append(translate_clipper(steps))
     out.append(final_test((repo / SOURCES[3]).read_text()))
+    flag, why = ho_builder_keeps_only_tokens(engine)
+    out.append("/-- The higher-order builder classes keep no state besides the token deque (and the create method): `build` is a\n"
+               "function of the builder's own tokens" + ("" if flag else f" — NOT established: {why}") + ". -/")
+    out.append(f"def Extracted.Formula.hoBuilderKeepsOnlyTokens : Bool := {'true' if flag else 'false'}\n")
     return "\n".join(out)
